@@ -25,7 +25,7 @@ theorem flat_terminates (ns : Nodes) : (flat ns).oof = false ∧ (flat ns).out.P
 /-- what the code does on a cyclic graph `0 ⇄ 1` (`clean --clean-dep t0`): both are cleaned once, `1` first;
     no diagnostic, no loop -/
 theorem cyclic_example :
-    (match plan [⟨['a'], [1], [], none, [], .action false⟩, ⟨['b'], [0], [], none, [], .action false⟩]
+    (match plan [⟨['a'], [1], [], none, [], .actions [⟨.plain, none⟩]⟩, ⟨['b'], [0], [], none, [], .actions [⟨.plain, none⟩]⟩]
         ⟨[['a']], none, true, false, false, false⟩ with
       | .ok p => some (p.order, p.oof)
       | .error _ => none) = some ([1, 0], false) := by decide
@@ -137,6 +137,37 @@ theorem dryrun_frame (tbl : Table) (r : Req) (w : World) (res : Result)
     simp only [hd]
     exact cleanTasks_dry tbl r.forget p.order w
 
+/-- **dryrun_runs_only_aware_actions** — the dry-run rule of `Task.clean` is per action: on `--dry-run` no shell
+    command is executed and no callable is called with `dryrun=False` (a callable without a `dryrun` parameter
+    would record `false`): the only actions that run are python callables that declare `dryrun`, and they are
+    told `True` — wherever they stand in the task's `clean` list -/
+theorem dryrun_runs_only_aware_actions (tbl : Table) (r : Req) (w : World) (res : Result)
+    (h : run tbl r w = .ok res) (hd : r.dryrun = true) :
+    ∀ t k, Ev.cmd t k ∉ res.events ∧ Ev.ran t k false ∉ res.events := by
+  unfold run at h
+  cases hp : plan tbl r with
+  | error e => simp [hp] at h
+  | ok p =>
+    simp only [hp] at h
+    cases h
+    simp only [hd]
+    intro t k
+    have := cleanTasks_dryOk tbl r.forget p.order w
+    exact ⟨fun hm => this _ hm, fun hm => by have := this _ hm; simp [dryOk] at this⟩
+
+/-- a task with `clean: [aware, cmd rm x, plain]` on a dry run: three announcements, only the aware callable runs
+    (told `True`); the same list on a real clean runs all three and removes `x` -/
+example :
+    (match run [⟨['t'], [], [], none, [], .actions [⟨.aware, none⟩, ⟨.cmd, some (.rm ['x'])⟩, ⟨.plain, none⟩]⟩]
+        ⟨[], none, false, false, true, false⟩ ⟨[['x']], [], [0]⟩ with
+      | .ok res => some (res.world.files, res.events) | .error _ => none) =
+    some ([['x']], [Ev.executing 0 0, Ev.ran 0 0 true, Ev.executing 0 1, Ev.executing 0 2]) ∧
+    (match run [⟨['t'], [], [], none, [], .actions [⟨.aware, none⟩, ⟨.cmd, some (.rm ['x'])⟩, ⟨.plain, none⟩]⟩]
+        ⟨[], none, false, false, false, false⟩ ⟨[['x']], [], [0]⟩ with
+      | .ok res => some (res.world.files, res.events) | .error _ => none) =
+    some ([], [Ev.executing 0 0, Ev.ran 0 0 false, Ev.executing 0 1, Ev.cmd 0 1, Ev.executing 0 2, Ev.ran 0 2 false]) := by
+  decide
+
 /-- **forget_exact** — saved state after the command: a task keeps its saved state unless `--forget` was given
     without `--dry-run` and the task is one of the cleaned tasks; nothing is ever added -/
 theorem forget_exact (tbl : Table) (r : Req) (w : World) (res : Result) (h : run tbl r w = .ok res) :
@@ -150,9 +181,11 @@ theorem forget_exact (tbl : Table) (r : Req) (w : World) (res : Result) (h : run
     intro x
     exact cleanTasks_db tbl r.dryrun r.forget p.order (w, []) x
 
-/-- **targets_frame** — files and directories after the command: nothing appears; whatever disappeared is a
+/-- **targets_frame** — (clean *actions* are user code; here they are taken not to touch the tree, `effFree`)
+    files and directories after the command: nothing appears; whatever disappeared is a
     target of a cleaned `clean: True` task; and (no dry run) every target file of such a task is gone -/
-theorem targets_frame (tbl : Table) (r : Req) (w : World) (res : Result) (h : run tbl r w = .ok res) :
+theorem targets_frame (tbl : Table) (r : Req) (w : World) (res : Result) (h : run tbl r w = .ok res)
+    (hfree : effFree tbl = true) :
     (∀ q, q ∈ res.world.files → q ∈ w.files) ∧
     (∀ q, q ∈ w.files → q ∈ res.world.files ∨ q ∈ cleanedTargets tbl res.order) ∧
     (∀ q, q ∈ res.world.dirs → q ∈ w.dirs) ∧
@@ -164,7 +197,7 @@ theorem targets_frame (tbl : Table) (r : Req) (w : World) (res : Result) (h : ru
   | ok p =>
     simp only [hp] at h
     cases h
-    have hfr := cleanTasks_frame tbl r.dryrun r.forget p.order w
+    have hfr := cleanTasks_frame tbl hfree r.dryrun r.forget p.order w
     have hset : cleanedTargets tbl p.order = p.order.flatMap (rmSet tbl) := by
       unfold cleanedTargets rmSet
       rfl
@@ -174,7 +207,7 @@ theorem targets_frame (tbl : Table) (r : Req) (w : World) (res : Result) (h : ru
     simp only [List.mem_flatMap] at hq
     obtain ⟨t, ht, hqt⟩ := hq
     simp only [hd]
-    exact cleanTasks_removes tbl r.forget p.order w t q ht hqt
+    exact cleanTasks_removes tbl hfree r.forget p.order w t q ht hqt
 
 /-- **monitor_sound** — the decidable predicate the driver evaluates on the implementation's observed order
     (`monitorOrder`) is the statement of `flat_perm` + `dependents_first`, restricted to the tasks whose clean
@@ -201,8 +234,8 @@ theorem monitor_sound (tbl : Table) (r : Req) (base : List Name) (w : World) (o 
     `t0 → t2, t3`; `t2 → t1`(setup); `t3 → t1`; `clean t0 --clean-dep`: accepted, fuel fine, acyclic,
     four tasks cleaned, the shared dependency `t1` last -/
 def diamond : Table :=
-  [⟨['t', '0'], [2, 3], [], none, [], .action false⟩, ⟨['t', '1'], [], [], none, [], .action true⟩,
-   ⟨['t', '2'], [], [1], none, [], .action false⟩, ⟨['t', '3'], [1], [], none, [], .targets⟩]
+  [⟨['t', '0'], [2, 3], [], none, [], .actions [⟨.plain, none⟩]⟩, ⟨['t', '1'], [], [], none, [], .actions [⟨.aware, none⟩]⟩,
+   ⟨['t', '2'], [], [1], none, [], .actions [⟨.plain, none⟩]⟩, ⟨['t', '3'], [1], [], none, [], .targets⟩]
 def diamondReq : Req := ⟨[['t', '0']], none, true, false, false, true⟩
 
 example : (cleanList diamond diamondReq).toOption = some [0] ∧ withDeps diamondReq = true ∧ acyclicB diamond = true ∧
@@ -212,8 +245,8 @@ example : (cleanList diamond diamondReq).toOption = some [0] ∧ withDeps diamon
 
 /-- a group cleaned without `--clean-dep`: its sub-tasks are cleaned, a plain task_dep is not -/
 example :
-    (match plan [⟨['g'], [2, 1], [], none, [], .action false⟩, ⟨['g', ':', 'a'], [], [], some 0, [], .action false⟩,
-                 ⟨['x'], [], [], none, [], .action false⟩]
+    (match plan [⟨['g'], [2, 1], [], none, [], .actions [⟨.plain, none⟩]⟩, ⟨['g', ':', 'a'], [], [], some 0, [], .actions [⟨.plain, none⟩]⟩,
+                 ⟨['x'], [], [], none, [], .actions [⟨.plain, none⟩]⟩]
         ⟨[['g']], none, false, false, false, false⟩ with | .ok p => some p.order | .error _ => none) = some [0, 1] := by
   decide
 
